@@ -167,7 +167,7 @@ fn ck2(name: &str, got: &crt::Fq2, want: &Fq2, a: &Fq2, b: &Fq2) -> Result<(), S
     }
 }
 
-fn check_fq2(c: &Fq2Case, info: &mut Info) -> Result<(), String> {
+pub fn check_fq2(c: &Fq2Case, info: &mut Info) -> Result<(), String> {
     let am = c.a.build();
     let bm = c.b.build();
     info.nt_if(!(am.c1.is_zero() && bm.c1.is_zero()));
@@ -251,7 +251,7 @@ fn ck6(name: &str, got: &crt::Fq6, want: &Fq12, ctx: &str) -> Result<(), String>
     }
 }
 
-fn check_fq6(c: &Fq6Case, info: &mut Info) -> Result<(), String> {
+pub fn check_fq6(c: &Fq6Case, info: &mut Info) -> Result<(), String> {
     let at = c.a.tower(6);
     let bt = c.b.tower(6);
     let am = Fq12::from_tower(&at);
@@ -348,7 +348,7 @@ fn ck12(name: &str, got: &crt::Fq12, want: &Fq12, ctx: &str) -> Result<(), Strin
     }
 }
 
-fn check_fq12(c: &Fq12Case, info: &mut Info) -> Result<(), String> {
+pub fn check_fq12(c: &Fq12Case, info: &mut Info) -> Result<(), String> {
     let at = c.a.tower(12);
     let bt = c.b.tower(12);
     let am = Fq12::from_tower(&at);
@@ -423,6 +423,7 @@ pub fn def() -> PropDef {
             Box::new(Sub { name: "fq2", rule: "Fq2 add/sub/neg/double/mul/square/inverse/mul_by_nonresidue/norm/frobenius/is_zero/==", quick: 30_000, thorough: 1_000_000, strategy: || boxed(fq2_case_strategy()), check: check_fq2 }),
             Box::new(Sub { name: "fq6", rule: "Fq6 ring ops, inverse, mul_by_nonresidue (x v), mul_by_1, mul_by_01, frobenius", quick: 12_000, thorough: 500_000, strategy: || boxed(fq6_case_strategy()), check: check_fq6 }),
             Box::new(Sub { name: "fq12", rule: "Fq12 ring ops, inverse, conjugate (= x^(q^6)), mul_by_014, frobenius", quick: 12_000, thorough: 500_000, strategy: || boxed(fq12_case_strategy()), check: check_fq12 }),
+            super::corpus_sub_field(),
         ],
         assumptions: COMMON_ASSUMPTIONS.to_vec(),
     }
